@@ -225,7 +225,7 @@ func cmdCheck(args []string) int {
 		}
 		for _, r := range results {
 			for _, o := range r.Obls {
-				if stableKind(o.Name) {
+				if stableKind(o.Name) && !o.Known {
 					led = append(led, LedgerEntry{r.Fn, o.Name})
 				}
 			}
